@@ -1,8 +1,10 @@
 /-
   C13 — the carrier hypotheses used by the ∀α statements of MinMax.lean and NaNPropagation.lean
   are TRUE of the executable carrier, IEEE `Float` (Lean's kernel-visible `Float.Model`):
-  `LtLaws Float`, `NaNUnordered Float`, `NaNArith Float`, `SqrtNaN Float`; and the resulting
-  `Float` instances of the min/max exactness and NaN-propagation theorems.
+  `LtLaws Float`, `NaNUnordered Float`, `NaNArith Float`, `SqrtNaN Float`, `AbsNaN Float`; and the
+  resulting `Float` instances of the min/max exactness and NaN-propagation theorems
+  (`population_variance`/`population_std_dev` for data of every length, one entry included), and
+  kernel-evaluated `Float` witnesses that `harmonic_mean` treats `-0.0` as a zero entry.
   (`exp`/`ln` are opaque libm calls in Lean's `Float`, so `geometric_mean` stays relative to
   `NaNFun Float`.)
 -/
@@ -139,6 +141,9 @@ theorem abs_nan_float (a : Float) (h : a.isNaN = true) : (Float.abs a).isNaN = t
   have : UnpackedFloat.abs .notANumber = .notANumber := rfl
   simp only [Float.Model.abs, unpack_nan a h, this, pack_nan]
 
+/-- IEEE `Float`: `abs` maps NaN to NaN -/
+theorem absNaN_float : AbsNaN Float := abs_nan_float
+
 private theorem f11 : ¬ ((1.0 : Float) < (1.0 : Float)) := by decide
 
 /-! ### the C13 ∀α theorems at `Float` -/
@@ -182,7 +187,8 @@ theorem quadratic_mean_nan_float (xs : List Float) (h : ∃ x ∈ xs, x.isNaN = 
 
 /-- IEEE `Float`: any NaN entry ⇒ `harmonic_mean` is NaN -/
 theorem harmonic_mean_nan_float (xs : List Float) (h : ∃ x ∈ xs, x.isNaN = true) :
-    (IterStatistics.harmonic_mean xs).isNaN = true := harmonic_mean_nan nanArith_float xs h
+    (IterStatistics.harmonic_mean xs).isNaN = true :=
+  harmonic_mean_nan nanArith_float absNaN_float xs h
 
 /-- IEEE `Float`: any NaN entry ⇒ `variance` is NaN -/
 theorem variance_nan_float (xs : List Float) (h : ∃ x ∈ xs, x.isNaN = true) :
@@ -193,11 +199,21 @@ theorem std_dev_nan_float (xs : List Float) (h : ∃ x ∈ xs, x.isNaN = true) :
     (IterStatistics.std_dev xs).isNaN = true :=
   std_dev_nan nanArith_float sqrtNaN_float f11 xs h
 
-/-- IEEE `Float`: any NaN entry among at least two ⇒ `population_variance` is NaN -/
-theorem population_variance_nan_float (xs : List Float) (h2 : 2 ≤ xs.length)
-    (h : ∃ x ∈ xs, x.isNaN = true) :
+/-- IEEE `Float`: any NaN entry ⇒ `population_variance` is NaN (data of every length; a single
+    NaN entry included) -/
+theorem population_variance_nan_float (xs : List Float) (h : ∃ x ∈ xs, x.isNaN = true) :
     (IterStatistics.population_variance xs).isNaN = true :=
-  population_variance_nan_of_two_le nanArith_float xs h2 h
+  population_variance_nan nanArith_float xs h
+
+/-- IEEE `Float`: any NaN entry ⇒ `population_std_dev` is NaN (data of every length) -/
+theorem population_std_dev_nan_float (xs : List Float) (h : ∃ x ∈ xs, x.isNaN = true) :
+    (IterStatistics.population_std_dev xs).isNaN = true :=
+  population_std_dev_nan nanArith_float sqrtNaN_float xs h
+
+/-- IEEE `Float`: `population_variance [x]` is NaN exactly when `x` is NaN -/
+theorem population_variance_singleton_isNaN_iff_float (x : Float) :
+    (IterStatistics.population_variance [x]).isNaN = true ↔ x.isNaN = true :=
+  population_variance_singleton_isNaN_iff nanArith_float (by decide) x
 
 /-- IEEE `Float`: any NaN entry in either sample ⇒ `covariance` is NaN -/
 theorem covariance_nan_float (xs ys : List Float) (hlen : xs.length = ys.length)
@@ -217,11 +233,40 @@ theorem geometric_mean_nan_float_rel (F : NaNFun Float) (xs : List Float)
     (IterStatistics.geometric_mean xs).isNaN = true :=
   geometric_mean_nan nanArith_float F xs h
 
+/-! ### `harmonic_mean` treats `-0.0` as a zero entry (IEEE `Float`, kernel-evaluated) -/
+
+/-- IEEE `Float`: the harmonic mean of data with a zero entry and no negative entry is `0`, also
+    when zeros of both signs occur: the code adds `1.0 / |x|`, so `-0.0` contributes `+∞` like
+    `0.0` does and the result is `n / +∞ = 0` (with `1.0 / x` the two infinities cancelled to
+    NaN).  Concrete data vectors, evaluated by the kernel on `Float.Model`; the results are `+0.0`
+    bit for bit. -/
+theorem harmonic_mean_zeros_float :
+    IterStatistics.harmonic_mean [(0.0 : Float), -0.0] = (0.0 : Float) ∧
+    IterStatistics.harmonic_mean [(-0.0 : Float), 0.0] = (0.0 : Float) ∧
+    IterStatistics.harmonic_mean [(-0.0 : Float)] = (0.0 : Float) ∧
+    IterStatistics.harmonic_mean [(-0.0 : Float), -0.0] = (0.0 : Float) ∧
+    IterStatistics.harmonic_mean [(1.0 : Float), 0.0, 4.0, -0.0] = (0.0 : Float) ∧
+    (IterStatistics.harmonic_mean [(0.0 : Float), -0.0]).isNaN = false := by
+  refine ⟨by decide, by decide, by decide, by decide, by decide, by decide⟩
+
+/-- IEEE `Float`: on data without negative entries `harmonic_mean` is `n / Σ 1/|x|` in `Float`
+    arithmetic (`harmonic_mean_of_nonneg` at `Float`) -/
+theorem harmonic_mean_of_nonneg_float (xs : List Float) (h : ∀ x ∈ xs, ¬ x < (0.0 : Float)) :
+    IterStatistics.harmonic_mean xs
+      = (if (0.0 : Float) < xs.foldl (fun i _ => i + (1.0 : Float)) (0.0 : Float)
+          then xs.foldl (fun i _ => i + (1.0 : Float)) (0.0 : Float)
+            / xs.foldl (fun s x => s + (1.0 : Float) / Float.abs x) (0.0 : Float)
+          else RFun.nan) :=
+  harmonic_mean_of_nonneg xs h
+
 /-! ### non-vacuity -/
 example : ∃ xs : List Float, xs ≠ [] ∧ ∀ x ∈ xs, x.isNaN = false :=
   ⟨[1.0, 2.0], by simp, by decide⟩
 example : ∃ xs : List Float, ∃ x ∈ xs, x.isNaN = true :=
   ⟨[1.0, RFun.nan], RFun.nan, by simp, by decide⟩
+example : (IterStatistics.population_variance [(RFun.nan : Float)]).isNaN = true :=
+  population_variance_nan_float _ ⟨RFun.nan, by simp, by decide⟩
+example : ¬ ((-0.0 : Float) < (0.0 : Float)) := by decide
 /-- `NaNFun` is satisfiable: `Float` with `exp`/`ln` replaced by the identity -/
 @[instance_reducible] private def toyRFun : RFun Float := { (inferInstance : RFun Float) with exp := id, ln := id }
 example : @NaNFun Float toyRFun := @NaNFun.mk Float toyRFun (fun _ h => h) (fun _ h => h)
